@@ -14,8 +14,8 @@ def run(tier):
     emits = parallel([lambda n=n, cs=cs: kv.emit(c, n, cs, workers=6, timeout=1500) for n, cs in jobs], max_workers=3)
     c.exhaustive = True
     sims = []
-    n, d = (25, 25) if c.quick() else (250, 40)
-    sims.append(kv.simulate(c, "kv-sim", kv.consts(keys="Keys3", invals=("nil", "empty", "x", "y"), exps=("none", "long"), many=3), n, d))
+    n, d = (25, 25) if c.quick() else (120, 40)
+    sims.append(kv.simulate(c, "kv-sim", kv.consts(keys="Keys3", invals=("nil", "empty", "x", "y"), exps=("none", "long"), many=2), n, d))
     kv.replay_both(c, emits + sims)
     # the same contract with time, on the Redis backend only (virtual clock, so it is cheap): what a write
     # stored - including the TTL the server keeps for it - is observed after time has passed
